@@ -9,6 +9,7 @@ import (
 	"math"
 	"os"
 	"path/filepath"
+	"sync/atomic"
 	"time"
 
 	"github.com/apache/skywalking-banyandb/pkg/fs"
@@ -182,4 +183,48 @@ func VerifH_C14_SegmentProtocolInterleavings() {
 		zzverif.Assert(!c14Removed, "nothing but delete removes the directory")
 	}
 	zzverif.Assert(!c14InitAfter, "a segment is never reopened after its directory was removed")
+}
+
+//verif:harness prop=C14,C07 tier=quick,thorough reach=finished native=off paths=2000000 depth=400 redirect=segment.initialize:c14StubInitialize,seriesIndex.Close:c14StubIndexClose,localFileSystem.MustRMAll:c14StubRMAll
+// Housekeeping must not release references it does not own: the retention pass (remove with a
+// deadline that expires nothing) runs concurrently with a query that acquires, uses and releases
+// the only, dormant, segment and with the idle reclaimer. In every interleaving the query's
+// reference keeps the segment open until the query itself releases it, and the final reference
+// count is zero.
+// bound: 1 dormant open segment that is NOT expired; threads: retention pass, one holder, idle reclaimer (thorough) / retention pass + holder (quick)
+func VerifH_C14_RetentionDoesNotStealReferences() {
+	c14Removed, c14Inits, c14InitAfter = false, 0, false
+	rec := fs.NewLocalFileSystem()
+	sc := &c06Ctl{
+		opts: &TSDBOpts[c06Table, struct{}]{SegmentInterval: IntervalRule{Unit: DAY, Num: 1}, TTL: IntervalRule{Unit: DAY, Num: 1}, ShardNum: 1},
+		l:    logger.GetLogger("c14"), lfs: rec,
+	}
+	s := &c06Seg{
+		id: 1, location: "/seg-20240101", suffix: "20240101", lfs: rec, l: sc.l, index: &seriesIndex{},
+		tsdbOpts:  sc.opts,
+		TimeRange: timestamp.NewSectionTimeRange(time.Unix(0, c06Min+int64(48*time.Hour)), time.Unix(0, c06Min+int64(72*time.Hour))),
+	}
+	sc.lst = append(sc.lst, s)
+	holder := func() {
+		if err := s.incRef(context.Background()); err != nil {
+			zzverif.Assert(false, "an undeleted segment can always be acquired")
+			return
+		}
+		zzverif.Yield()
+		zzverif.Assert(s.index != nil, "a held segment keeps its index open (nobody else may release the holder's reference)")
+		zzverif.Assert(atomic.LoadInt32(&s.refCount) >= 1, "the holder's reference is still counted while it holds the segment")
+		s.DecRef()
+	}
+	retention := func() {
+		_, _ = sc.remove(time.Unix(0, c06Min)) // deadline before the segment: nothing expires
+	}
+	reclaimer := func() { s.closeIfIdle(math.MaxInt64) }
+	if zzverif.Thorough() {
+		zzverif.Par(holder, retention, reclaimer)
+	} else {
+		zzverif.Par(holder, retention)
+	}
+	zzverif.Reach("finished")
+	zzverif.Assert(s.refCount == 0, "no reference is leaked or over-released")
+	zzverif.Assert(!c14Removed, "an unexpired segment is not deleted")
 }
